@@ -68,8 +68,11 @@ Section Msgq.
   (* nni_msgq_aio_put / nni_msgq_aio_get after a successful nni_aio_start *)
   Definition mq_put (q : mq) (t : T) (m : pmsg) : mq * list mqev :=
     mq_run_putq (S (length (mq_putq q))) (mkMq (mq_q q) (mq_cap q) (mq_getq q) (mq_putq q ++ [(t, m)])).
-  Definition mq_get (q : mq) (g : G) : mq * list mqev :=
-    mq_run_getq (S (length (mq_getq q))) (mkMq (mq_q q) (mq_cap q) (mq_getq q ++ [g]) (mq_putq q)).
+  (* runput: nni_msgq_aio_get also runs the writer side afterwards (a reader that took a
+     buffered message made room for blocked writers); pinned: it does not *)
+  Definition mq_get (runput : bool) (q : mq) (g : G) : mq * list mqev :=
+    let '(q1, e1) := mq_run_getq (S (length (mq_getq q))) (mkMq (mq_q q) (mq_cap q) (mq_getq q ++ [g]) (mq_putq q)) in
+    if runput then let '(q2, e2) := mq_run_putq (S (length (mq_putq q1))) q1 in (q2, e1 ++ e2) else (q1, e1).
 
   (* nni_msgq_resize: the oldest messages beyond cap+1 are freed *)
   Definition mq_resize (q : mq) (cap : nat) : mq * list pmsg :=
@@ -99,7 +102,7 @@ Arguments mq_sendable {G T}.  Arguments mq_recvable {G T}.
 Arguments mq_put_waits {G T}.  Arguments mq_get_waits {G T}.  Arguments mq_rerun {G T}.
 
 (* which repairs of msgqueue.c the source has (Gen/Consts.v) *)
-Record mqfix := mkMqfix { mf_nb : bool; mf_resize : bool }.
+Record mqfix := mkMqfix { mf_nb : bool; mf_resize : bool; mf_getput : bool }.
 Definition nb_refused (mf : mqfix) (nb : bool) (waits : bool) : bool :=
   nb && (negb (mf_nb mf) || waits).
 
@@ -142,7 +145,7 @@ Definition xreq_step (mf : mqfix) (s : xreq) (o : pop) : xreq * list pout :=
   | PRecv _ a nb =>
       if nb_refused mf nb (mq_get_waits (xq_urq s)) then (s, [Complete a E_AGAIN None])
       else
-        let '(q, ev) := mq_get (xq_urq s) a in
+        let '(q, ev) := mq_get (mf_getput mf) (xq_urq s) a in
         (mkXreq (xq_uwq s) q (xq_sending s) (xq_ttl s) (xq_closed s), map urq_out ev)
   | PCancel a rv =>
       let uw := xq_uwq s in let ur := xq_urq s in
@@ -156,7 +159,7 @@ Definition xreq_step (mf : mqfix) (s : xreq) (o : pop) : xreq * list pout :=
   | PPipeStart p peer =>
       if negb (N.eqb peer PROTO_REP) then (s, [Reject E_PROTO])
       else
-        let '(q, ev) := mq_get (xq_uwq s) p in
+        let '(q, ev) := mq_get (mf_getput mf) (xq_uwq s) p in
         (mkXreq q (xq_urq s) (uwq_sent ev ++ xq_sending s) (xq_ttl s) (xq_closed s), flat_map uwq_out ev ++ [TranRecv p])
   | PPipeClose p =>
       let uw := xq_uwq s in
@@ -167,7 +170,7 @@ Definition xreq_step (mf : mqfix) (s : xreq) (o : pop) : xreq * list pout :=
       let snd' := filter (fun x => negb (N.eqb (fst x) p)) (xq_sending s) in
       if negb (N.eqb rv 0) then (mkXreq (xq_uwq s) (xq_urq s) snd' (xq_ttl s) (xq_closed s), map Free held ++ [ClosePipe p])
       else
-        let '(q, ev) := mq_get (xq_uwq s) p in
+        let '(q, ev) := mq_get (mf_getput mf) (xq_uwq s) p in
         (mkXreq q (xq_urq s) (uwq_sent ev ++ snd') (xq_ttl s) (xq_closed s), flat_map uwq_out ev)
   | PRecvDone p rv m =>
       if negb (N.eqb rv 0) then (s, [ClosePipe p])
